@@ -233,10 +233,40 @@ def rule_anchor_after_indent(ctx, fx, config):
     ctx.floor("ORDER.mark-writers", n, 3, config)
 
 
+def rule_empty_seq_indent(ctx, fx, config, prop="C13"):
+    """LAYOUT:empty-seq-deeper-than-its-key — an empty block sequence that starts a line is written as `[]`; when it is the
+    value of a key at the sequence's own depth (compact list indentation) it must be indented one level deeper than the key,
+    or the line reads as a new key.  At the start of a line every pending-separator flag has been spent (the line break and
+    the anchor writer clear them), so the decision can only depend on positions: the test guarding `write_indent(depth + 1)`
+    reads `current_map_depth` and `depth`, nothing else."""
+    f = fx.fn("<ser::SeqSer as serde::ser::SerializeSeq>::end")
+    ctx.saw(f)
+    deeper = [b for b, t in f.calls() if fx.callee(t).endswith("::write_indent") and render(f.sym_operand(t["args"][1])) == "Add(self.depth, 1)"]
+    key = "%s:LAYOUT:empty-seq-deeper-than-its-key" % prop
+    if not ctx.check(bool(deeper), "LAYOUT", key, "", "SeqSer::end never indents `[]` deeper than the key it is the value of", config, ctx.where(f)):
+        return
+    line_start = [(sb, tt) for sb, sym, tt, ff in bool_switches(f) if render(sym).endswith("at_line_start")]
+    bad = []
+    with f.deep():
+        sw = list(bool_switches(f))
+    for b in deeper:
+        guards = [(sb, sym) for sb, sym, tt, ff in sw if (f.edge_dominates(sb, tt, b) or f.edge_dominates(sb, ff, b)) and any(f.edge_dominates(lb, lt, sb) for lb, lt in line_start)]
+        if not guards:
+            bad.append("unguarded")
+        for sb, sym in guards:
+            r = render(sym)
+            leaves = set(re.findall(r"self(?:\.ser)?\.(\w+)", r))
+            if not leaves <= {"current_map_depth", "depth"} or "current_map_depth" not in leaves:
+                bad.append(r[:80])
+    ctx.check(not bad, "LAYOUT", key, "the deeper indentation of `[]` is decided from current_map_depth and depth alone",
+              "the test that gives an empty sequence at the start of a line its deeper indentation reads %s: pending-separator flags are always spent at the start of a line, so `[]` lands in the key's own column and the document does not parse" % bad, config, ctx.where(f, deeper[0]))
+
+
 def run(ctx):
     for config in ctx.configs:
         fx = ctx.facts(config)
         rule_anchor_after_indent(ctx, fx, config)
+        rule_empty_seq_indent(ctx, fx, config)
         npairs = 0
         for f in sorted(fx.fns.values(), key=lambda f: f.npath):
             if not f.file.endswith("src/ser.rs"):
